@@ -36,6 +36,14 @@ def import_xfab():
     where = os.path.realpath(os.path.dirname(xfab.__file__))
     if not where.startswith(REPO + os.sep):
         raise HarnessError("xfab imported from %s, expected under %s" % (where, REPO))
+    # the whole package, as an application would have it: import-time side effects of ANY module (tables patched on
+    # import, caches filled, shared dictionaries extended) are then in effect for every check
+    import importlib as _il
+    for sub in ("tools", "laue", "sg", "sglib", "atomlib", "structure", "symmetry", "detector", "parameters", "checks", "xfab_logging"):
+        try:
+            _il.import_module("xfab." + sub)
+        except ImportError as e:
+            raise HarnessError("cannot import xfab.%s: %r" % (sub, e))
     import logging
     logging.getLogger("xfab").setLevel(logging.CRITICAL + 1)
     logging.disable(logging.CRITICAL)
@@ -92,6 +100,7 @@ class Ctx(object):
         self._buckets = set()
         self._kept = []
         self._case_resid = {}
+        self._sample_view = None
         reset_library_state()
 
     # -- history helpers ----------------------------------------------------
@@ -165,7 +174,8 @@ class Ctx(object):
         if flag:
             self.nt.add(case_hash(self._case if key is None else key))
             if len(self.samples) < MAX_SAMPLES and key is None:
-                self.samples.append(self._case)
+                v = getattr(self, "_sample_view", None)
+                self.samples.append({"case": self._case, "derived": v} if v is not None else self._case)
         return flag
 
     def sample(self, obj):
